@@ -15,7 +15,8 @@ RELATION_TAGS = ('inter', 'intra', 'other', 'name', 'description', 'container', 
 XML_EDITS = ['none', 'explicit-compress-false', 'explicit-merge-any', 'explicit-similar-empty', 'explicit-prefix-radix-10',
              'zero-pad-confidence', 'zero-pad-version', 'zero-pad-cnp', 'drop-similar', 'drop-merge', 'explicit-date-acquired',
              'empty-attr-extension', 'zero-pad-prefix-radix', 'reorder-attributes', 'plus-version', 'empty-predicate',
-             'empty-relation-description', 'empty-similar-explicit', 'empty-xref', 'empty-regex-soft', 'story-whitespace']
+             'empty-relation-description', 'empty-similar-explicit', 'empty-xref', 'empty-regex-soft', 'story-whitespace',
+             'shuffle-definitions']
 
 
 def local(tag):
@@ -49,6 +50,39 @@ def elements_of(root):
                 (tag in RELATION_TAGS and el.getparent() is not None and local(el.getparent().tag) == 'relations'):
             out.append((element_key(el), tag, sorted([k, v] for k, v in el.attrib.items())))
     return out
+
+
+def tree_of(ont):
+    """The <ontology> element as the nested structure of the tree model, children in document order."""
+    def attrs(e):
+        return sorted([k, v] for k, v in e.attrib.items())
+
+    def kids(e, tag=None):
+        return [c for c in e if isinstance(c.tag, str) and (tag is None or local(c.tag) == tag)]
+
+    def container(e, name):
+        found = kids(e, name)
+        return kids(found[0]) if found else []
+    ets = []
+    for et in container(ont, 'event-types'):
+        parents = kids(et, 'parent')
+        ets.append({'attrs': attrs(et), 'parent': attrs(parents[0]) if parents else None,
+                    'props': [{'attrs': attrs(p), 'concepts': [attrs(c) for c in kids(p, 'property-concept')]} for p in container(et, 'properties')],
+                    'rels': [{'tag': local(r.tag), 'attrs': attrs(r)} for r in container(et, 'relations')],
+                    'atts': [attrs(a) for a in container(et, 'attachments')]})
+    return {'objectTypes': [attrs(x) for x in container(ont, 'object-types')], 'concepts': [attrs(x) for x in container(ont, 'concepts')],
+            'eventTypes': ets, 'sources': [attrs(x) for x in container(ont, 'sources')]}
+
+
+def sort_attrs(tree):
+    """The model writes attributes in the order of its rule tables; attribute order is not part of the comparison."""
+    if isinstance(tree, dict):
+        return {k: (sorted(v) if k == 'attrs' and isinstance(v, list) else sort_attrs(v)) for k, v in tree.items()}
+    if isinstance(tree, list):
+        if tree and all(isinstance(x, list) and len(x) == 2 and all(isinstance(y, str) for y in x) for x in tree):
+            return sorted(tree)
+        return [sort_attrs(x) for x in tree]
+    return tree
 
 
 def gen_ontology_spec(rng):
@@ -184,6 +218,20 @@ def apply_xml_edit(rng, root, how):
     if how in ('empty-xref', 'empty-regex-soft'):
         e = pick(['object-type'])
         return e is not None and (e.set('xref' if how == 'empty-xref' else 'regex-soft', '') or True)
+    if how == 'shuffle-definitions':
+        # the definitions of every container in another order (the schema leaves the order open)
+        done = False
+        for c in root.iter():
+            if isinstance(c.tag, str) and local(c.tag) in ('object-types', 'concepts', 'event-types', 'sources', 'properties', 'relations',
+                                                           'attachments', 'property') and len(c) > 1:
+                kids = list(c)
+                for k in kids:
+                    c.remove(k)
+                rng.shuffle(kids)
+                for k in kids:
+                    c.append(k)
+                done = True
+        return done
     if how == 'story-whitespace':
         # the story is of schema type string: its white space is significant (the other texts are tokens, for which the
         # SDK's own validation refuses surrounding or repeated white space)
@@ -235,20 +283,28 @@ class C08(Property):
     design_ref = 'DESIGN.md section 10, C08'
     required_theorems = (
         'decode_encode', 'encode_decode_encode', 'decode_normal', 'canonVal_idem', 'written_value_is_read_back',
-        'readBack_written', 'tables_have_unique_names', 'cycle_fixed_point',
+        'readBack_written', 'tables_have_unique_names', 'cycle_fixed_point', 'cycle_idempotent', 'tableOf_ok', 'cycle_twice',
+        'cycleOnt_twice', 'cycleOnt_sorted_complete',
     )
-    level_text = ('Lean 4 theorems over an attribute-level model of the generate_xml / create_from_xml pairs (one table of '
-                  'attribute rules per element class: always written, left out when None, left out at the default, left out '
-                  'when falsy, written only with an attribute extension; booleans and integers rendered canonically): for every '
-                  'table with unique names and every in-memory record in normal form, reading back what was written gives the '
-                  'record; whatever create_from_xml accepts is in normal form, so parse-serialize is a fixed point after one '
-                  'cycle. The tables are compared with the code on generated ontologies whose serialization is edited '
-                  'independently (defaults written out, optional attributes dropped, integers in other notations), together '
-                  'with schema validity, equality of the parsed definitions and byte-identity of the second cycle.')
-    level_note = ('Proof is about the model: the rule tables are transcribed from the code and tied to it only by the '
-                  'correspondence check; element nesting and ordering (sorted by name on output), lxml and the RelaxNG engine '
-                  'are not modelled.')
-    technique = 'Lean 4 proof (codec round trip over rule tables, by induction over the table) + differential correspondence'
+    level_text = ('Lean 4 theorems over a model of the generate_xml / create_from_xml pairs. Attribute level (one table of attribute '
+                  'rules per element class: always written, left out when None, left out at the default, left out when falsy, written '
+                  'only with an attribute extension; booleans and integers rendered canonically): for every table with unique names '
+                  'and every in-memory record in normal form, reading back what was written gives the record; and for EVERY element '
+                  'the parser accepts (not only normal forms), parsing what was serialized succeeds and serializes to the very same '
+                  'attributes (cycle_idempotent, cycle_twice: the second cycle is the identity), the tables of the SDK being shown '
+                  'to meet the side conditions (unique names, well-formed guards, canonical defaults). Tree level (an ontology element '
+                  'with its object types, concepts, sources, event types, their parent, properties with concept associations, '
+                  'relations and attachments): the serialized tree of a parsed ontology is a fixed point of the cycle '
+                  '(cycleOnt_twice), every container is sorted by the key of its definitions and holds exactly the cycled definitions '
+                  'of the input, nothing lost or added (cycleOnt_sorted_complete). Tied to the code on generated ontologies whose '
+                  'serialization is edited independently (defaults written out, optional attributes dropped, integers in other '
+                  'notations, definitions shuffled): every element\'s attributes and the whole output tree (nesting and order) are '
+                  'compared with the model, together with schema validity, equality of the parsed definitions and byte-identity of '
+                  'the second cycle; and on histories of one Ontology object (serialized, cleared, refilled) against a fresh build.')
+    level_note = ('Proof is about the model: the rule tables and the tree shape are transcribed from the code and tied to it only by '
+                  'the correspondence check; definitions within one container have distinct keys (repeated definitions are C11); '
+                  'lxml and the RelaxNG engine are not modelled.')
+    technique = 'Lean 4 proof (codec round trip and idempotence over rule tables by case analysis per rule; tree fixed point via sorted lists of fixed points) + differential correspondence'
     parallel = True
     assumptions = ('attribute values are schema-valid (booleans are true/false, integers are digit strings)',)
 
@@ -362,7 +418,7 @@ class C08(Property):
         except Exception as ex:
             b3 = b'err:' + type(ex).__name__.encode()
         els = {json.dumps(k): a for k, _t, a in elements_of(x2)}
-        return {'skipped': False, 'parsed': 'ok', 'elements': els, 'second_identical': b2 == b3,
+        return {'skipped': False, 'parsed': 'ok', 'elements': els, 'second_identical': b2 == b3, 'tree': sort_attrs(tree_of(x2)),
                 'schema_valid': bool(schema().validate(wrap(x2))),
                 'same_definitions': self.same_definitions(root, x2)}
 
@@ -399,7 +455,8 @@ class C08(Property):
         root, applied = self.prepared_input(case)
         if root is None:
             return []
-        return [{'op': 'xmlcycle', 'elements': [{'tag': t, 'attrs': a} for _k, t, a in elements_of(root)]}]
+        return [{'op': 'xmlcycle', 'elements': [{'tag': t, 'attrs': a} for _k, t, a in elements_of(root)]},
+                dict(tree_of(root), op='xmltree')]
 
     def predict(self, case, replies):
         if case['kind'] == 'reuse':
@@ -417,10 +474,10 @@ class C08(Property):
             els[json.dumps(k)] = sorted(r['once'])
             if r['twice'] == 'fail' or sorted(r['twice']) != sorted(r['once']):
                 ok = False
-        if not ok:
+        if not ok or replies[1]['once'] == 'fail' or not replies[1]['twiceSame']:
             return {'skipped': False, 'parsed': 'model-fails'}
         return {'skipped': False, 'parsed': 'ok', 'elements': els, 'second_identical': True, 'schema_valid': True,
-                'same_definitions': True}
+                'tree': sort_attrs(replies[1]['once']), 'same_definitions': True}
 
     def fill_undecided(self, case, obs, pred):
         # whether generated definitions are a case at all (valid, accepted by a writer when built from scratch) is decided
